@@ -35,12 +35,21 @@ static void count_fault(ch_fault* f)
 }
 
 static int cur_ord;
+static const octet* cur_orig;   /* what the writer handed to ch_write (for enqueue) */
+static size_t cur_orig_len;
 static void enqueue(ch_queue* q, const octet* data, size_t len, size_t orig_len, int altered, int dup)
 {
 	ch_msg* m;
 	if (q->tail >= 6)
 		return;
 	m = &q->q[q->tail++];
+	/* a "corruption" that leaves every octet as it was (two flips of the same bit, a point
+	   substituted by itself) is no alteration */
+	if (altered == 1 && cur_orig && len == cur_orig_len && !memcmp(data, cur_orig, len))
+	{
+		altered = 0;
+		sk_count("probe.corruption_without_effect", 1);
+	}
 	memcpy(m->data, data, len);
 	m->len = len, m->off = 0, m->orig_len = orig_len, m->altered = altered, m->dup = dup, m->frag = 0, m->ord = cur_ord;
 }
@@ -58,6 +67,7 @@ err_t ch_write(size_t* written, const void* buf, size_t count, void* file)
 	if (count > CH_MAXMSG - 64)
 		return ERR_OUTOFMEMORY;
 	cur_ord = ord;
+	cur_orig = (const octet*)buf, cur_orig_len = count;
 	memcpy(tmp, buf, count);
 	if (ord < 3)
 		memcpy(ch->log[dir][ord], buf, count), ch->loglen[dir][ord] = count;
